@@ -587,7 +587,7 @@ def relevant (prop tag : String) : Bool :=
   else if prop == "C15" then pre "c15-"
   else if prop == "C16" then pre "c16-" || pre "c01-"
   else if prop == "C17" then pre "c17-"
-  else if prop == "C19" then pre "c19-"
+  else if prop == "C19" then pre "c19-" || tag == "c03-not-serving"
   else if prop == "C20" then pre "c20-" || pre "c01-"
   else true
 
